@@ -665,6 +665,81 @@ def idle_cases(vocabs, q=True):
     return cs
 
 
+WS_TEXTS = ["hello\nworld", "hello\tworld", "hello\rworld", "a\nb", "a\tb", "a\rb", "a\n1", "a\t!", "\nword", "\tword", "\rword", "x \n y", "x\n y", "x \ny",
+            "a  b", "a   b", "a    b c", "  lead", "trail  ", " ", "  ", "\n", "\t", "\r", "\n\n", "\r\n", "a\r\nb", "a\n\nb", "a\n\tb", "a\t\nb", "a \t b",
+            "line one\nline two\nline three", "col1\tcol2\tcol3\n1\t2\t3", "def f():\n\treturn 1\n", "if x:\n    y = 2\n", "a\x0bb", "a\x0cb", "a\u00a0b",
+            "a\u2028b", "a\u3000b", "tab\t", "nl\n", "\n!", "\t(", "\n's", "1\n2", "x\n\n\ny", "e\u0301\nx", "中\n文", "end.\nNext", "a \n", " \na",
+            "hello world\n", "Hello, world!\nHow are you?\tFine.", "\n hello", "\t hello", "a\n b", "a\n  b"]
+
+
+def ctor_cases(ctx, vocabs):
+    """the tokenizer as the model constructors build it from GGUF metadata, per metadata variant; whitespace-rich texts"""
+    rng = ctx.rng
+    names = {v.name: v for v in vocabs}
+    plan = [("llama", "vb0", "vb0"), ("llama", "vl", "vl"), ("mllama", "vb0", "vb0"), ("mistral3", "vb2", "vb2"), ("gemma2", "vs0", "vs0"), ("gemma3", "vs0", "vs0")]
+    variants = [{}, {"tokenizer.ggml.pre": "llama-bpe"}, {"tokenizer.ggml.pre": "qwen2"}, {"tokenizer.ggml.pre": "default"}, {"tokenizer.ggml.pre": "gpt-2"},
+                {"tokenizer.ggml.pre": "tekken"}, {"tokenizer.ggml.pretokenizer": "EXPLICIT"}, {"tokenizer.ggml.add_bos_token": False, "tokenizer.ggml.add_eos_token": True}]
+    cases = []
+    for arch, vn, direct in plan:
+        v = names.get(vn)
+        if v is None:
+            continue
+        texts = list(WS_TEXTS)
+        sps = [x.decode() for x in v.specials if x and all(c < 0x80 for c in x)]
+        for sp in sps[:3]:
+            texts += [sp + "\nword", "a" + sp + "\tb", sp + "\n", "\n" + sp + " x"]
+        for _ in range(10 if ctx.quick() else 200):
+            texts.append("".join(rng.choice(WS + ["a", "B", "1", "!", "word", "é", "中"]) for _ in range(rng.randint(2, 9))))
+        for var in variants:
+            meta = dict(var)
+            if v.kind == "bpe":
+                meta["tokenizer.ggml.model"] = "gpt2"
+                if meta.get("tokenizer.ggml.pretokenizer") == "EXPLICIT":
+                    meta["tokenizer.ggml.pretokenizer"] = v.pre
+            else:
+                meta["tokenizer.ggml.model"] = "llama"
+                if "tokenizer.ggml.pretokenizer" in meta:
+                    continue
+            cases.append({"op": "ctor", "arch": arch, "vocab": vn, "direct": direct, "meta": meta, "texts": [clean(t).encode("utf-8").hex() for t in texts]})
+    return cases
+
+
+def judge_ctor(ctx, vby, cases, obs):
+    for c, o in zip(cases, obs):
+        if c.get("op") != "ctor":
+            continue
+        v = vby[c["vocab"]]
+        var = {k: val for k, val in c["meta"].items() if k not in ("tokenizer.ggml.model",)}
+        tag = "%s.New(%s)" % (c["arch"], ", ".join("%s=%r" % (k.replace("tokenizer.ggml.", ""), (val if k != "tokenizer.ggml.pretokenizer" else "<explicit>")) for k, val in sorted(var.items())) or "defaults")
+        if "res" not in o:
+            ctx.obligation("constructor %s builds a tokenizer" % tag, False, str(o))
+            ctx.mismatch("model constructor %s did not build a TextProcessor from the fake GGUF metadata" % tag, {"arch": c["arch"], "meta": c["meta"]}, o, None)
+            continue
+        nbad = 0
+        for th, st in zip(c["texts"], o["res"]):
+            tb = bytes.fromhex(th)
+            ctx.note_case({"ctor": c["arch"], "m": sorted(var.items()), "v": v.name, "t": th}, st.get("ok") is True, v.kind + ":constructor",
+                          sample={"case": {"constructor": tag, "vocab": v.name, "text": repr(tb)}, "impl": st})
+            if "panic" in st or "enc_err" in st or "dec_err" in st:
+                ctx.violation({"family": v.kind, "class": "encode-failed", "cause": "constructor"}, "%s: Encode/Decode failed on %r: %s" % (tag, tb, st), {"case": {"arch": c["arch"], "meta": c["meta"], "vocab": v.name, "text": th}, "impl": st})
+                continue
+            if st.get("ids_in_range") is False:
+                ctx.violation({"family": v.kind, "class": "id-out-of-vocab"}, "%s: Encode(%r) produced an id outside the vocabulary" % (tag, tb), {"impl": st})
+            if "split" in st and nbad < 2:
+                ctx.violation({"family": "bpe", "class": "pretok-not-partition", "cause": "constructor"},
+                              "%s: the pre-tokeniser pattern this constructor chose splits %r into %r - not a partition: split yields only the matches, the rest of the text is dropped" % (
+                                  tag, tb, [bytes.fromhex(x) for x in st["split"]]), {"case": {"arch": c["arch"], "meta": c["meta"], "vocab": v.name, "text": th}, "impl": st})
+            if st.get("ok") is False and v.complete and is_valid_utf8(tb) and b"\x00" not in tb:
+                nbad += 1
+                if nbad <= 2:
+                    ctx.violation({"family": v.kind, "class": "roundtrip", "cause": classify(v, tb) if classify(v, tb) != "other" else "constructor"},
+                                  "tokenizer built by %s (vocabulary %s): Decode(Encode(%r)) = %r" % (tag, v.name, tb, bytes.fromhex(st.get("dec", ""))),
+                                  {"case": {"arch": c["arch"], "meta": c["meta"], "vocab": v.setup_line() if not v.sparse else {"op": "llama"}, "text": th}, "impl": st})
+            elif st.get("same_as_direct") is False and len(ctx.mismatches) < 5:
+                ctx.mismatch("tokenizer built by %s answers differently from NewBytePairEncoding/NewSentencePieceModel with the modelled pattern on the same vocabulary" % tag,
+                             {"arch": c["arch"], "meta": c["meta"], "vocab": v.name, "text": th, "text_repr": repr(tb)}, st, None)
+
+
 def judge_long(ctx, vby, cases, obs, binp):
     """monitors on the summarised round trips: Decode(Encode(t)) == t, ids inside the vocabulary, the real split is a partition"""
     nbad = 0
@@ -924,6 +999,9 @@ def run(ctx, only=None):
                        "C20_bpe_roundtrip (arbitrary pattern): pre-tokeniser returns a partition (hypothesis; tested on every fragment); C20_bpe_roundtrip_llama3/_tekken: no such hypothesis "
                        "(tekken: every \\p{L} rune is in a letter subclass - tested on every observed class)",
                        "special-token strings are non-empty",
+                       "round trip needs the pre-tokeniser to return a PARTITION of each text fragment (C20_bpe_decode_is_pieces: Decode(Encode(t)) is the concatenation of the pieces); "
+                       "tested per model constructor (llama, mllama, mistral3; gemma2/gemma3 have no pre-tokeniser) and per GGUF metadata variant (pre unset/llama-bpe/qwen2/default/gpt-2/tekken, "
+                       "explicit pretokenizer key, add_bos/add_eos) on whitespace-rich texts through the real constructors with a fake fs.Config",
                        "float32 scores are only compared: the model uses integers, the generator integer-valued scores"]
     ctx.proof_stage(["Tok"], "Tok/Properties_C20.v", extra_targets=["Tok/Corr.v"])
     binp = ctx.go_build("c20")
@@ -943,21 +1021,27 @@ def run(ctx, only=None):
 
         def side_run(key, cs):
             side[key] = ctx.run_jsonl(binp, cs, args=[vlib.REPO], timeout=1500)
-        th = [threading.Thread(target=side_run, args=("long", lsetup + lcases)), threading.Thread(target=side_run, args=("idle", icases))]
+        ccases = ctor_cases(ctx, vocabs)
+        csetup = [v.setup_line() for v in vocabs if any(c["vocab"] == v.name or c.get("direct") == v.name for c in ccases)]
+        th = [threading.Thread(target=side_run, args=("long", lsetup + lcases)), threading.Thread(target=side_run, args=("idle", icases)),
+              threading.Thread(target=side_run, args=("constructors", csetup + ccases))]
         for t in th:
             t.start()
     obs, err = ctx.run_jsonl(binp, setup + cases, args=[vlib.REPO])
     if only is None:
         for t in th:
             t.join()
-        for key, cs, skip in (("long", lsetup + lcases, len(lsetup)), ("idle", icases, 0)):
+        for key, cs, skip in (("long", lsetup + lcases, len(lsetup)), ("idle", icases, 0), ("constructors", csetup + ccases, len(csetup))):
             so, se = side.get(key, (None, "not run"))
             okk = so is not None and len(so) == len(cs)
             ctx.obligation("harness c20 answered every %s case" % key, okk, str(se))
             if not okk:
                 ctx.proof_failures.append({"obligation": "correspondence: harness c20 did not answer every %s case" % key, "detail": str(se)})
                 continue
-            judge_long(ctx, vby, cs, so, binp)
+            if key == "constructors":
+                judge_ctor(ctx, vby, cs, so)
+            else:
+                judge_long(ctx, vby, cs, so, binp)
     if obs is None or len(obs) != len(setup) + len(cases):
         ctx.obligation("harness c20 answered every case", False, str(err))
         ctx.proof_failures.append({"obligation": "correspondence: harness c20 did not answer every case", "detail": str(err)})
